@@ -1,5 +1,617 @@
 package main
 
-func cmdCheck(args []string) int { return 2 }
+// symgo check <PROPERTY> [--tier quick|thorough]
+//
+// Runs every harness registered for the property in /verif/harness/index.json (one
+// engine process per harness, in parallel), replays each counterexample natively
+// against the real build, prints VIOLATION / KNOWN-FINDING lines, writes the evidence
+// file and exits 0 (held), 1 (violation reproduced) or 2 (inconclusive / incomplete /
+// spurious).
 
-func (it *Interp) loadVector(path string) error { return nil }
+import (
+	"bufio"
+	"encoding/json"
+	"flag"
+	"fmt"
+	"io"
+	"os"
+	"os/exec"
+	"path/filepath"
+	"runtime"
+	"sort"
+	"strconv"
+	"strings"
+	"sync"
+	"time"
+)
+
+type tierCfg struct {
+	Params   []string `json:"params"`   // one run per entry ("" = defaults)
+	Timeout  int      `json:"timeout"`  // seconds per run
+	MaxPaths int      `json:"maxpaths"` // per run
+	MaxSteps int      `json:"maxsteps"`
+	QTimeout int      `json:"qtimeout"` // ms
+}
+
+type harnessGroup struct {
+	Pkg       string   `json:"pkg"`
+	Harnesses []string `json:"harnesses"`
+	Quick     tierCfg  `json:"quick"`
+	Thorough  tierCfg  `json:"thorough"`
+	Bounds    string   `json:"bounds"`
+	Out       string   `json:"outside"`
+	NonTerm   bool     `json:"nontermination_is_violation"`
+}
+
+type propIndex struct {
+	Groups      []harnessGroup `json:"groups"`
+	Assumptions []string       `json:"assumptions"`
+}
+
+type oneRun struct {
+	group   *harnessGroup
+	harness string
+	params  string
+	cfg     tierCfg
+	res     *runResult
+	exit    int
+	stderr  string
+	resFile string
+}
+
+func verifRoot() string {
+	if r := os.Getenv("VERIF_ROOT"); r != "" {
+		return r
+	}
+	exe, err := os.Executable()
+	if err == nil {
+		d := filepath.Dir(filepath.Dir(exe))
+		if _, err := os.Stat(filepath.Join(d, "harness", "index.json")); err == nil {
+			return d
+		}
+	}
+	return "/verif"
+}
+
+func cmdCheck(args []string) int {
+	fs := flag.NewFlagSet("check", flag.ExitOnError)
+	tier := fs.String("tier", "", "quick | thorough")
+	repo := fs.String("repo", "/repo", "repository root")
+	only := fs.String("only", "", "run only harnesses containing this substring")
+	jobs := fs.Int("j", 0, "parallel engine processes")
+	keep := fs.Bool("keep", false, "keep per-run result files")
+	crossSolver := fs.String("cross", "", "also discharge with this solver (z3-new|cvc5) and compare statuses")
+	var prop string
+	if len(args) > 0 && !strings.HasPrefix(args[0], "-") {
+		prop = args[0]
+		args = args[1:]
+	}
+	fs.Parse(args)
+	if prop == "" && fs.NArg() > 0 {
+		prop = fs.Arg(0)
+	}
+	if *tier == "" {
+		*tier = os.Getenv("VERIF_TIER")
+	}
+	if *tier == "" {
+		*tier = "quick"
+	}
+	seed, _ := strconv.Atoi(os.Getenv("VERIF_SEED"))
+	root := verifRoot()
+	start := time.Now()
+
+	var index map[string]propIndex
+	data, err := os.ReadFile(filepath.Join(root, "harness", "index.json"))
+	if err != nil {
+		fmt.Fprintln(os.Stderr, "index:", err)
+		return 2
+	}
+	if err := json.Unmarshal(data, &index); err != nil {
+		fmt.Fprintln(os.Stderr, "index:", err)
+		return 2
+	}
+	pi, ok := index[prop]
+	if !ok {
+		fmt.Fprintln(os.Stderr, "no harnesses registered for", prop)
+		return 2
+	}
+	outDir := filepath.Join(root, "out", prop+"-"+*tier)
+	os.RemoveAll(outDir)
+	os.MkdirAll(outDir, 0o755)
+	os.MkdirAll(filepath.Join(root, "evidence"), 0o755)
+	os.MkdirAll(filepath.Join(root, "replay"), 0o755)
+
+	var runs []*oneRun
+	for gi := range pi.Groups {
+		g := &pi.Groups[gi]
+		cfg := g.Quick
+		if *tier == "thorough" && (len(g.Thorough.Params) > 0 || g.Thorough.Timeout > 0) {
+			cfg = g.Thorough
+			if len(cfg.Params) == 0 {
+				cfg.Params = g.Quick.Params
+			}
+		}
+		if len(cfg.Params) == 0 {
+			cfg.Params = []string{""}
+		}
+		for _, h := range g.Harnesses {
+			if *only != "" && !strings.Contains(h, *only) {
+				continue
+			}
+			for _, p := range cfg.Params {
+				runs = append(runs, &oneRun{group: g, harness: h, params: p, cfg: cfg})
+			}
+		}
+	}
+	if len(runs) == 0 {
+		fmt.Fprintln(os.Stderr, "nothing to run")
+		return 2
+	}
+	nj := *jobs
+	if nj <= 0 {
+		nj = runtime.NumCPU()
+		if nj > 16 {
+			nj = 16
+		}
+	}
+	exe, _ := os.Executable()
+	byPkg := map[string][]*oneRun{}
+	var pkgOrder []string
+	for i, r := range runs {
+		r.resFile = filepath.Join(outDir, fmt.Sprintf("%03d-%s.json", i, r.harness))
+		if _, ok := byPkg[r.group.Pkg]; !ok {
+			pkgOrder = append(pkgOrder, r.group.Pkg)
+		}
+		byPkg[r.group.Pkg] = append(byPkg[r.group.Pkg], r)
+	}
+	var wg sync.WaitGroup
+	for _, pkg := range pkgOrder {
+		prs := byPkg[pkg]
+		// longest first
+		sort.SliceStable(prs, func(i, j int) bool { return prs[i].cfg.Timeout > prs[j].cfg.Timeout })
+		// light jobs (short budgets) are packed several per worker so that the ~3 s
+		// package load is amortised; heavy ones get a worker each
+		heavy, light := 0, 0
+		for _, r := range prs {
+			if r.cfg.Timeout > 90 {
+				heavy++
+			} else {
+				light++
+			}
+		}
+		w := heavy + (light+5)/6
+		if lim := nj * len(prs) / len(runs); w > lim {
+			w = lim
+		}
+		if w < 1 {
+			w = 1
+		}
+		if w > len(prs) {
+			w = len(prs)
+		}
+		jobs := make(chan *oneRun, len(prs))
+		for _, r := range prs {
+			jobs <- r
+		}
+		close(jobs)
+		for k := 0; k < w; k++ {
+			wg.Add(1)
+			go func(pkg string) {
+				defer wg.Done()
+				runWorker(exe, *repo, root, prop, pkg, jobs)
+			}(pkg)
+		}
+	}
+	wg.Wait()
+	for _, r := range runs {
+		if data, err := os.ReadFile(r.resFile); err == nil {
+			var rr runResult
+			if json.Unmarshal(data, &rr) == nil {
+				r.res = &rr
+			}
+		}
+	}
+
+	// ---- collect
+	type replayJob struct {
+		run   *oneRun
+		v     *violation
+		file  string
+		out   string
+		repro bool
+	}
+	var jobsR []*replayJob
+	bad := 0
+	for _, r := range runs {
+		if r.res == nil {
+			bad++
+			fmt.Fprintf(os.Stderr, "[%s %s] engine failed (exit %d):\n%s\n", r.harness, r.params, r.exit, tail(r.stderr, 30))
+			continue
+		}
+		if r.res.Status == "inconclusive" || r.res.Status == "incomplete" {
+			bad++
+			fmt.Fprintf(os.Stderr, "[%s %s] %s: %v %s\n", r.harness, r.params, r.res.Status, r.res.Inconclusive, r.res.Incomplete)
+		}
+		for vi := range r.res.Violations {
+			v := &r.res.Violations[vi]
+			name := fmt.Sprintf("%s-%s-%s-%s", prop, r.harness, sanitize(v.Label), sanitize(v.Kind))
+			if v.Known != "" {
+				name += "-known-" + sanitize(v.Known)
+			}
+			if r.params != "" {
+				name += "-" + sanitize(r.params)
+			}
+			jobsR = append(jobsR, &replayJob{run: r, v: v, file: filepath.Join(root, "replay", name+".json")})
+		}
+	}
+	// ---- native replay of every counterexample
+	replayed := 0
+	if len(jobsR) > 0 {
+		ovFile, err := writeReplayOverlay(*repo, root, outDir)
+		if err != nil {
+			fmt.Fprintln(os.Stderr, "replay overlay:", err)
+			bad++
+		} else {
+			var wg2 sync.WaitGroup
+			sem2 := make(chan struct{}, 6)
+			for _, j := range jobsR {
+				doc := map[string]interface{}{"property": prop, "harness": j.run.harness, "package": j.run.group.Pkg, "params": j.run.params,
+					"label": j.v.Label, "kind": j.v.Kind, "detail": j.v.Detail, "vector": j.v.Vector, "stack": j.v.Stack}
+				b, _ := json.MarshalIndent(doc, "", " ")
+				os.WriteFile(j.file, b, 0o644)
+				wg2.Add(1)
+				go func(j *replayJob) {
+					defer wg2.Done()
+					sem2 <- struct{}{}
+					defer func() { <-sem2 }()
+					j.out = nativeReplay(*repo, ovFile, j.run.group.Pkg, j.run.harness, j.run.params, j.file)
+					j.repro = reproduces(j.out, j.v)
+				}(j)
+			}
+			wg2.Wait()
+			replayed = len(jobsR)
+		}
+	}
+
+	exit := 0
+	violations := 0
+	knownHit := map[string]bool{}
+	for _, j := range jobsR {
+		if j.v.Known != "" {
+			if j.repro {
+				knownHit[j.v.Known] = true
+			} else {
+				fmt.Fprintf(os.Stderr, "[%s] listed finding %s: solver model did not reproduce natively (%s)\n", j.run.harness, j.v.Known, j.out)
+				bad++
+			}
+			continue
+		}
+		if j.repro {
+			violations++
+			fmt.Printf("VIOLATION property=%s replay=%s\n", prop, j.file)
+			fmt.Fprintf(os.Stderr, "  %s [%s] %s -> native: %s\n", j.run.harness, j.v.Kind, j.v.Detail, j.out)
+			exit = 1
+		} else {
+			fmt.Fprintf(os.Stderr, "SPURIOUS: %s [%s/%s] solver model did not reproduce natively: %s (vector %s)\n", j.run.harness, j.v.Kind, j.v.Label, j.out, j.file)
+			bad++
+		}
+	}
+	for _, k := range loadKnown(filepath.Join(root, "known_findings.jsonl"), prop, "") {
+		_ = k
+	}
+	allKnown := loadKnownAll(filepath.Join(root, "known_findings.jsonl"), prop)
+	for _, k := range allKnown {
+		if k.Status == "known" && knownHit[k.ID] {
+			fmt.Printf("KNOWN-FINDING: property=%s %s\n", prop, k.What)
+		}
+	}
+	if exit == 0 && bad > 0 {
+		exit = 2
+	}
+
+	// ---- evidence
+	ev := buildEvidence(prop, *tier, seed, runs, pi, replayed, violations, knownHit, time.Since(start).Seconds(), *crossSolver)
+	b, _ := json.MarshalIndent(ev, "", " ")
+	os.WriteFile(filepath.Join(root, "evidence", prop+".json"), b, 0o644)
+	if !*keep {
+		// keep the directory small: results are summarised in the evidence
+		os.RemoveAll(outDir)
+	}
+	status := map[int]string{0: "HELD", 1: "VIOLATION", 2: "INCONCLUSIVE"}[exit]
+	fmt.Fprintf(os.Stderr, "%s %s tier=%s runs=%d wall=%.1fs\n", prop, status, *tier, len(runs), time.Since(start).Seconds())
+	return exit
+}
+
+func tail(s string, n int) string {
+	lines := strings.Split(strings.TrimRight(s, "\n"), "\n")
+	if len(lines) > n {
+		lines = lines[len(lines)-n:]
+	}
+	return strings.Join(lines, "\n")
+}
+
+func loadKnownAll(path, property string) []knownFinding {
+	data, err := os.ReadFile(path)
+	if err != nil {
+		return nil
+	}
+	var out []knownFinding
+	for _, line := range strings.Split(string(data), "\n") {
+		line = strings.TrimSpace(line)
+		if line == "" || strings.HasPrefix(line, "#") {
+			continue
+		}
+		var k knownFinding
+		if json.Unmarshal([]byte(line), &k) == nil && k.Property == property {
+			out = append(out, k)
+		}
+	}
+	return out
+}
+
+// writeReplayOverlay materialises the generated API/test files under outDir and writes
+// the go build overlay that injects all harness files into /repo (nothing is written
+// to /repo).
+func writeReplayOverlay(repo, root, outDir string) (string, error) {
+	hdir := filepath.Join(root, "harness")
+	ov, _, err := overlayFor(repo, hdir, true)
+	if err != nil {
+		return "", err
+	}
+	testTmpl, err := os.ReadFile(filepath.Join(hdir, "replay_test.go.tmpl"))
+	if err != nil {
+		return "", err
+	}
+	gen := filepath.Join(outDir, "gen")
+	os.MkdirAll(gen, 0o755)
+	repl := map[string]string{}
+	n := 0
+	add := func(target string, content []byte) {
+		n++
+		f := filepath.Join(gen, fmt.Sprintf("f%03d_%s", n, filepath.Base(target)))
+		os.WriteFile(f, content, 0o644)
+		repl[target] = f
+	}
+	for target, content := range ov {
+		add(target, content)
+		if strings.HasSuffix(target, "zz_verif_api.go") {
+			pkg := packageClause(content)
+			t := strings.TrimSuffix(target, "zz_verif_api.go") + "zz_verif_replay_test.go"
+			add(t, []byte(strings.Replace(string(testTmpl), "package PKG", "package "+pkg, 1)))
+		}
+	}
+	b, _ := json.Marshal(map[string]interface{}{"Replace": repl})
+	f := filepath.Join(outDir, "overlay.json")
+	return f, os.WriteFile(f, b, 0o644)
+}
+
+func nativeReplay(repo, ovFile, pkg, harness, params, vector string) string {
+	p := "."
+	if pkg != "" && pkg != "." {
+		p = "./" + pkg
+	}
+	cmd := exec.Command("go", "test", "-overlay", ovFile, "-run", "^TestVerifReplay$", "-count=1", "-vet=off", "-timeout", "120s", "-v", p)
+	cmd.Dir = filepath.Join(repo, "ociregistry")
+	cmd.Env = append(os.Environ(), "GOWORK=off", "GOFLAGS=", "GOPROXY=off", "GOSUMDB=off", "GOTOOLCHAIN=local",
+		"VERIF_REPLAY="+vector, "VERIF_HARNESS="+harness, "VERIF_PARAMS="+params)
+	out, _ := cmd.CombinedOutput()
+	for _, line := range strings.Split(string(out), "\n") {
+		if strings.HasPrefix(line, "VERIF-OUTCOME ") {
+			return strings.TrimPrefix(line, "VERIF-OUTCOME ")
+		}
+	}
+	s := string(out)
+	if strings.Contains(s, "panic: test timed out") {
+		return "timeout"
+	}
+	if i := strings.Index(s, "panic:"); i >= 0 {
+		return "panic " + firstLine(s[i:])
+	}
+	if strings.Contains(s, "fatal error:") {
+		return "panic " + firstLine(s[strings.Index(s, "fatal error:"):])
+	}
+	return "no-outcome: " + tail(s, 5)
+}
+
+func firstLine(s string) string {
+	if i := strings.IndexByte(s, '\n'); i >= 0 {
+		return s[:i]
+	}
+	return s
+}
+
+func reproduces(out string, v *violation) bool {
+	switch v.Kind {
+	case "assert":
+		return out == "assert-failed "+v.Label
+	case "panic":
+		return strings.HasPrefix(out, "panic ")
+	case "nontermination":
+		return out == "timeout"
+	case "deadlock":
+		return out == "timeout" || strings.Contains(out, "deadlock")
+	}
+	return strings.HasPrefix(out, "assert-failed") || strings.HasPrefix(out, "panic ")
+}
+
+func buildEvidence(prop, tier string, seed int, runs []*oneRun, pi propIndex, replayed, violations int, knownHit map[string]bool, wall float64, cross string) map[string]interface{} {
+	var paths, queries, asserts, held int
+	var steps int64
+	var solverS float64
+	funcs := map[string]bool{}
+	stdf := map[string]bool{}
+	modelsU := map[string]bool{}
+	assum := map[string]bool{}
+	for _, a := range pi.Assumptions {
+		assum[a] = true
+	}
+	var samples []interface{}
+	var hs []interface{}
+	covers := map[string]int{}
+	for _, r := range runs {
+		if r.res == nil {
+			continue
+		}
+		paths += r.res.Paths
+		steps += r.res.Steps
+		queries += r.res.SolverQueries
+		asserts += r.res.Asserts
+		held += r.res.AssertsHeld
+		solverS += r.res.SolverTimeS
+		for _, f := range r.res.FuncsRepo {
+			funcs[f] = true
+		}
+		for _, f := range r.res.FuncsStd {
+			stdf[f] = true
+		}
+		for _, f := range r.res.Models {
+			modelsU[f] = true
+		}
+		for _, a := range r.res.Assumptions {
+			assum[a] = true
+		}
+		for k, n := range r.res.Covers {
+			covers[r.harness+":"+k] += n
+		}
+		if len(samples) < 6 && len(r.res.Samples) > 0 {
+			samples = append(samples, map[string]interface{}{"harness": r.harness, "params": r.params, "path": r.res.Samples[0]})
+		}
+		hs = append(hs, map[string]interface{}{
+			"name": r.harness, "package": r.group.Pkg, "params": r.params, "status": r.res.Status, "bounds": r.group.Bounds, "outside_the_claim": r.group.Out,
+			"paths": r.res.Paths, "paths_ended": r.res.PathsEnded, "ssa_instructions": r.res.Steps, "solver_queries": r.res.SolverQueries,
+			"assertion_queries": r.res.Asserts, "assertions_unsat": r.res.AssertsHeld, "assert_labels": r.res.AssertLabels, "covers_reached": r.res.Covers,
+			"solver_time_s": r.res.SolverTimeS, "wall_s": r.res.WallS, "violations": len(r.res.Violations),
+		})
+	}
+	if len(samples) == 0 {
+		samples = append(samples, "no completed path was sampled")
+	}
+	keys := func(m map[string]bool) []string {
+		var out []string
+		for k := range m {
+			out = append(out, k)
+		}
+		sort.Strings(out)
+		return out
+	}
+	var kh []string
+	for k := range knownHit {
+		kh = append(kh, k)
+	}
+	sort.Strings(kh)
+	if paths == 0 {
+		paths = 1
+	}
+	if steps == 0 {
+		steps = 1
+	}
+	cov := map[string]interface{}{
+		"states":                        paths,
+		"transitions":                   steps,
+		"traces_validated_against_impl": replayed,
+		"samples":                       samples,
+		"obligations":                   asserts,
+		"discharged":                    held,
+		"explanation":                   "states = symbolic paths of the real go/ssa explored (each path stands for all inputs satisfying its path condition); transitions = SSA instructions interpreted; obligations = assertion queries pc∧¬assert sent to the solver, discharged = those answered unsat; traces_validated_against_impl = solver models replayed natively against the real build",
+		"solver_queries":                queries,
+		"solver_time_s":                 solverS,
+		"solver":                        "z3 4.8.12 (one incremental process per harness)",
+		"functions_encoded":             keys(funcs),
+		"stdlib_interpreted_n":          len(stdf),
+		"models_and_stubs":              keys(modelsU),
+		"harnesses":                     hs,
+		"covers_reached":                covers,
+		"known_findings_hit":            kh,
+		"exhaustive":                    false,
+	}
+	return map[string]interface{}{
+		"property_id": prop, "tier": tier, "seed": seed, "level": "model_checking", "coverage": cov,
+		"assumptions": keys(assum), "wall_s": wall, "violations": violations,
+	}
+}
+
+// runWorker drives one engine process (package loaded once) through jobs.
+func runWorker(exe, repo, root, prop, pkg string, jobs chan *oneRun) {
+	var cmd *exec.Cmd
+	var stdin io.WriteCloser
+	var lines chan string
+	var errBuf *strings.Builder
+	startProc := func() bool {
+		cmd = exec.Command(exe, "run", "-worker", "-repo", repo, "-harness-dir", filepath.Join(root, "harness"), "-pkg", pkg,
+			"-property", prop, "-known", filepath.Join(root, "known_findings.jsonl"))
+		errBuf = &strings.Builder{}
+		cmd.Stderr = errBuf
+		var err error
+		stdin, err = cmd.StdinPipe()
+		if err != nil {
+			return false
+		}
+		out, err := cmd.StdoutPipe()
+		if err != nil {
+			return false
+		}
+		if err := cmd.Start(); err != nil {
+			return false
+		}
+		lines = make(chan string, 4)
+		go func(lines chan string) {
+			sc := bufio.NewScanner(out)
+			sc.Buffer(make([]byte, 1<<20), 1<<20)
+			for sc.Scan() {
+				lines <- sc.Text()
+			}
+			close(lines)
+		}(lines)
+		return true
+	}
+	stopProc := func() {
+		if cmd != nil {
+			stdin.Close()
+			cmd.Process.Kill()
+			cmd.Wait()
+			cmd = nil
+		}
+	}
+	defer stopProc()
+	for r := range jobs {
+		if cmd == nil && !startProc() {
+			r.exit = 2
+			r.stderr = "cannot start engine worker"
+			continue
+		}
+		to := r.cfg.Timeout
+		if to == 0 {
+			to = 120
+		}
+		job := map[string]interface{}{"harness": r.harness, "params": r.params, "out": r.resFile, "timeout": to,
+			"maxpaths": r.cfg.MaxPaths, "maxsteps": r.cfg.MaxSteps, "qtimeout": r.cfg.QTimeout, "nonterm": r.group.NonTerm}
+		b, _ := json.Marshal(job)
+		errBuf.Reset()
+		io.WriteString(stdin, string(b)+"\n")
+		timer := time.After(time.Duration(to+90) * time.Second)
+		done := false
+		for !done {
+			select {
+			case line, ok := <-lines:
+				if !ok {
+					r.exit = 2
+					r.stderr = errBuf.String() + "\nengine worker exited unexpectedly"
+					stopProc()
+					done = true
+					break
+				}
+				if strings.HasPrefix(line, "DONE ") {
+					f := strings.Fields(line)
+					r.exit, _ = strconv.Atoi(f[1])
+					r.stderr = errBuf.String()
+					done = true
+				}
+			case <-timer:
+				r.exit = 2
+				r.stderr = errBuf.String() + "\nengine worker killed after hard timeout"
+				stopProc()
+				done = true
+			}
+		}
+	}
+}
